@@ -64,6 +64,7 @@ def generate(seed, run, tier):
         ops.append(op)
         if op['op'] == 'backward_only' and rs.chance(0.7):
             ops.append({'op': 'opt_step', 'which': op['which'], 'lr': op['lr']})
+    ops = sched.add_mode_scopes(cfg, ops, Stream(seed, ID, base_run, 'mixed_mode'))
     if crash_pos is not None and crash_pos > len(ops):
         # all positions of this schedule are already enumerated: use the slot for an ordinary seeded run
         return generate(seed, run + 10 ** 7, 'quick_from_thorough')
@@ -127,7 +128,7 @@ def shrink_candidates(case):
         yield c
     # simplify ops
     for i, o in enumerate(case['ops']):
-        for key in ('abort', 'stale_example', 'mid', 'prologue'):
+        for key in ('abort', 'stale_example', 'mid', 'prologue', 'scope'):
             if o.get(key):
                 c = json.loads(json.dumps(case))
                 c['ops'][i].pop(key)
